@@ -225,4 +225,4 @@ CURVES = ['log100_oetf', 'log100_inverse_oetf', 'log316_oetf', 'log316_inverse_o
           'arib_b67_inverse_oetf', 'arib_b67_oetf']
 def transfer_total_harnesses():
     return [H(f'total_{c}', domain='x: all 2^32 f32 bit patterns', desc=f'{c}: no panic/overflow/invalid float->int for any f32; finite on [0,1]') for c in CURVES] + \
-           [H(f'flatten_len_{n}', bounded=f'Vec length == {n}', domain=f'{n} pixels, content symbolic in [0,0.5]^3', desc='from_raw_parts_mut flatten in bounds (pointer checks) and pointwise') for n in range(4)]
+           [H(f'flatten_len_{n}', bounded=f'Vec length == {n}', domain=f'{n} pixels, concrete content', desc='from_raw_parts_mut flatten in bounds (pointer checks) and pointwise') for n in range(4)]
